@@ -7,6 +7,7 @@ pub mod hist;
 pub mod fndrv;
 pub mod tadrv;
 pub mod matrix;
+pub mod twohop;
 pub mod slots {
     include!(concat!(env!("OUT_DIR"), "/slots.rs"));
     pub fn of(name: &str) -> &'static [&'static str] {
